@@ -24,8 +24,10 @@ NOTES = [
     "IntroducerClient built without its constructor (no Tub): _local_subscribers, _inbound_announcements, _debug_counts set directly; "
     "_save_announcements (YAML cache file) replaced by a recorder; log calls stripped / answered with 0",
     "time.time in introducer.client / introducer.server replaced by a constant",
-    "introducer.common.ed25519 replaced by a proxy of the real module whose verify_signature answers a symbolic Boolean per announcement; "
-    "verifying_key_from_string is the real function (argument realised, compiled call made with CrossHair tracing off)",
+    "introducer.common.ed25519 is a proxy of the real module: verifying_key_from_string is the real function (argument realised, compiled call made "
+    "with CrossHair tracing off) whose key is re-wrapped as a Python Ed25519PublicKey with the same bytes; verify_signature is the REAL "
+    "allmydata.crypto.ed25519.verify_signature; only the backend call key.verify(sig, data) is ideal: InvalidSignature unless the signature has 64 "
+    "bytes and the harness's symbolic outcome for that announcement is True",
     "introducer.common.json.loads runs the real jsonbytes.loads on the realised (concrete) document with CrossHair tracing off",
     "IntroducerService built without its constructor: _announcements, _subscribers, _debug_counts set directly; subscribers are recorders of callRemote",
 ]
@@ -139,12 +141,55 @@ def h_process_announcement(subscribed: bool, stored: bool, old_has_seq: bool, ol
 
 # ---- unsign_from_foolscap -----------------------------------------------------------------------------
 
+from cryptography.hazmat.primitives.asymmetric.ed25519 import Ed25519PublicKey as _PubKeyABC      # noqa: E402
+from cryptography.exceptions import InvalidSignature as _InvalidSignature                          # noqa: E402
+
+
+class _IdealKey(_PubKeyABC):
+    """an Ed25519 public key whose verify() is the ideal check (what the `cryptography` backend would do for a key whose signatures the
+    harness decides): a signature that is not 64 bytes long never verifies; otherwise the harness's outcome function decides"""
+
+    def __init__(self, raw, world):
+        self.raw = raw
+        self.world = world
+
+    def public_bytes_raw(self):
+        return self.raw
+
+    def public_bytes(self, encoding, format):
+        return self.raw
+
+    def verify(self, signature, data):
+        w = self.world
+        ok = False
+        if len(signature) == 64 and w.outcome_for_msg(data, self.raw, signature):
+            ok = True
+        w.calls.append((self.raw, signature, data, ok))
+        if not ok:
+            raise _InvalidSignature()
+
+    def __eq__(self, other):
+        return isinstance(other, _IdealKey) and other.raw == self.raw
+
+    def __hash__(self):
+        return hash(self.raw)
+
+    def __copy__(self):
+        return self
+
+    def __deepcopy__(self, memo):
+        return self
+
+
 class _IdealEd25519(object):
-    """proxy of allmydata.crypto.ed25519 with an ideal verify_signature"""
+    """proxy of allmydata.crypto.ed25519: verifying_key_from_string is the real function (its result re-wrapped as an _IdealKey with the
+    decoded key bytes); verify_signature is the REAL allmydata.crypto.ed25519.verify_signature, which ends in key.verify() = the ideal check.
+    calls = the backend verifications that took place: (raw key, signature, message, outcome)"""
 
     def __init__(self, outcome_for_msg):
         self.outcome_for_msg = outcome_for_msg
         self.calls = []
+        self.returned = []      # what the real verify_signature returned when it returned normally
 
     def __getattr__(self, name):
         return getattr(real_ed25519, name)
@@ -155,18 +200,14 @@ class _IdealEd25519(object):
         from crosshair import deep_realize, NoTracing
         s = deep_realize(s)
         with NoTracing():
-            return real_ed25519.verifying_key_from_string(s)
+            raw = real_ed25519.verifying_key_from_string(s).public_bytes_raw()
+        return _IdealKey(raw, self)
 
     def verify_signature(self, key, sig, msg):
-        from crosshair import deep_realize, NoTracing
-        with NoTracing():
-            raw = key.public_bytes_raw()
-        sig = deep_realize(sig)
-        msg = deep_realize(msg)
-        ok = self.outcome_for_msg(msg, raw, sig)
-        self.calls.append((raw, sig, msg, ok))
-        if not ok:
-            raise BadSignature()
+        from crosshair import deep_realize
+        r = real_ed25519.verify_signature(key, deep_realize(sig), deep_realize(msg))
+        self.returned.append(r)
+        return r
 
 
 class _UntracedJSON(object):
@@ -599,4 +640,98 @@ def h_batch_signed_content(k0: int, k1: int, k2: int, v0: bool, v1: bool, v2: bo
     for d in c.delivered:
         if d[0] not in _KEYS:
             return "delivery attributed to an unknown key"
+    return True
+
+
+# ---- signatures of the wrong length: the real ed25519.verify_signature must RAISE, never return ----------------------------
+
+hlib.encoded(real_ed25519.verify_signature, real_ed25519.verifying_key_from_string)
+_SIG_LENGTHS = [0, 1, 32, 63, 64, 65, 128]
+_SIG_BLOBS = [b"v0-" + base32.b2a(b"S" * n) for n in _SIG_LENGTHS]        # concrete, built at import time
+
+
+def h_sig_length(li: int, valid: bool, through_batch: bool) -> bool:
+    """
+    pre: 0 <= li < len(_SIG_LENGTHS)
+    post: _ == True
+    """
+    n = _SIG_LENGTHS[li]
+    msg = _MSG_SEQ[1]
+    ann_t = (msg, _SIG_BLOBS[li], KEY_A)
+    ideal = _IdealEd25519(lambda m, k, s: valid)
+    saved = common_mod.ed25519
+    common_mod.ed25519 = ideal
+    out = None
+    err = None
+    c = _mk_client(True)
+    try:
+        try:
+            if through_batch:
+                _got(c, [ann_t])
+            else:
+                out = common_mod.unsign_from_foolscap(ann_t)
+        except Exception as e:
+            err = e
+    finally:
+        common_mod.ed25519 = saved
+    for r in ideal.returned:
+        if r is not None:
+            return "ed25519.verify_signature returned %r instead of raising BadSignature / returning None" % (r,)
+    want = valid and n == 64
+    if through_batch:
+        if err is not None:
+            return "got_announcements raised %s" % (type(err).__name__,)
+        accepted = len(c.delivered) == 1
+    else:
+        accepted = out is not None
+        if not accepted and not isinstance(err, BadSignature):
+            return "a signature that cannot verify must be reported as BadSignature, got %s" % (type(err).__name__,)
+    if accepted and not want:
+        return "an announcement whose signature is %d bytes long / does not verify was accepted under the claimed key" % n
+    if want and not accepted:
+        return "a valid 64-byte signature was rejected"
+    if accepted and not any(call[3] and call[1] == b"S" * n and call[2] == msg for call in ideal.calls):
+        return "accepted without a successful backend verification of this signature over this message"
+    return True
+
+
+# ---- a forged copy of an announcement (same message, same claimed key, other signature) must not suppress the genuine one ---------
+
+_FORGED_SIG = b"v0-" + base32.b2a(b"F" * 64)
+
+
+def h_batch_forged_copy(pos: int, forged_first: bool, other_valid: bool, copies: int) -> bool:
+    """
+    pre: 0 <= pos <= 2 and 1 <= copies <= 2
+    post: _ == True
+    """
+    msg = _MSG_SEQ[1]
+    genuine = (msg, _SIG, KEY_A)
+    forged = (msg, _FORGED_SIG, KEY_A)
+    pair = [forged] * copies + [genuine] if forged_first else [genuine] + [forged] * copies
+    other = _ANN_T[1][KIND_OK]                       # a well-formed announcement of key B
+    batch = list(pair)
+    batch.insert(pos if pos <= len(batch) else len(batch), other)
+    ideal = _IdealEd25519(lambda m, k, s: (s == b"S" * 64) if k == b"A" * 32 else other_valid)
+    c = _mk_client(True)
+    saved = common_mod.ed25519
+    common_mod.ed25519 = ideal
+    try:
+        try:
+            _got(c, batch)
+        except Exception as e:
+            return "got_announcements raised %s" % (type(e).__name__,)
+    finally:
+        common_mod.ed25519 = saved
+    got_a = [d for d in c.delivered if d[0] == KEY_A]
+    got_b = [d for d in c.delivered if d[0] == KEY_B]
+    if len(got_a) != 1:
+        return "the genuine announcement was delivered %d times although a correctly signed copy is in the batch (forged copy %s it)" % (
+            len(got_a), "before" if forged_first else "after")
+    if got_a[0][1] != _json.loads(msg.decode("utf-8")) or ("storage", KEY_A) not in c._inbound_announcements:
+        return "delivered body / stored entry wrong"
+    if not any(call[3] and call[0] == b"A" * 32 and call[1] == b"S" * 64 and call[2] == msg for call in ideal.calls):
+        return "accepted without verifying the genuine signature"
+    if len(got_b) != (1 if other_valid else 0):
+        return "the other key's announcement was mishandled"
     return True
